@@ -806,6 +806,7 @@ class RF24:
         if not send_only and self._in[0] >> 1 & 7 < 6:
             self.flush_rx()
         self.clear_status_flags()
+        self.update()  # the STATUS byte clocked out above predates the clearing
         # self._reg_write(0xE3)
         up_cnt = 0
         self._ce_pin.value = True
